@@ -1,2 +1,9 @@
 (* Context shared between lines of a case file (schemas defined by SCHEMA directives). *)
-let handle_directive (_fn : string) (_args : string list) (_obs : string) : bool = false
+let schemas : (string, Model.schema) Hashtbl.t = Hashtbl.create 16
+
+let handle_directive (fn : string) (args : string list) (obs : string) : bool =
+  match fn, args with
+  | "SCHEMA", [ sid ] -> Hashtbl.replace schemas sid (Sexp.schema_of_sexp obs); true
+  | _ -> false
+
+let schema sid = try Hashtbl.find schemas sid with Not_found -> failwith ("unknown schema " ^ sid)
